@@ -154,6 +154,8 @@ def gen_random(rnd):
                     pool = REPERTOIRE[charset] + ("\n\t\r\\'\"/\x01\x7f" if rnd.random() < 0.5 else "")
                     if rnd.random() < 0.08 and OUTSIDE[charset]:
                         pool = OUTSIDE[charset]
+                    elif rnd.random() < 0.08:
+                        pool = "ABCxyz019 \x7f\x7f"          # DEL among plain ASCII: a byte of every charset but 'bk' (0x7f is U+25A0 there)
                     chunks.append(("s", "".join(rnd.choice(pool) for _ in range(rnd.randrange(0, 12)))))
             st = apm.string(rnd.choice([".ascii", ".asciz"]), chunks)
             st.quote = rnd.choice("\"'/")
